@@ -133,8 +133,8 @@ class Ctx:
 
     # ---- finish
     def finish(self):
-        os.makedirs(os.path.join(VERIF, "evidence"), exist_ok=True)
-        rdir = os.path.join(VERIF, "replays", self.prop)
+        os.makedirs(os.path.join(build.OUT, "evidence"), exist_ok=True)
+        rdir = os.path.join(build.OUT, "replays", self.prop)
         if os.path.isdir(rdir):
             for old in os.listdir(rdir):
                 if old.endswith(".json"):
@@ -186,7 +186,7 @@ class Ctx:
             "coverage": cov, "assumptions": self.assumptions, "wall_s": round(time.time() - self.t0, 2),
             "violations": len(new),
         }
-        with open(os.path.join(VERIF, "evidence", self.prop + ".json"), "w") as f:
+        with open(os.path.join(build.OUT, "evidence", self.prop + ".json"), "w") as f:
             json.dump(evd, f, indent=1, default=repr, ensure_ascii=True)
         for l in lines:
             print(l)
